@@ -3,6 +3,7 @@ package props
 import (
 	"bytes"
 	"fmt"
+	"reflect"
 	"testing"
 
 	"github.com/free5gc/ike/eap"
@@ -407,7 +408,16 @@ func c19Oracle(in c19In) probe.Outcome {
 			returned = c.BuildEncrypted(message.IkePayloadType(in.U8a), cp(in.B1))
 			want = &model.Payload{Kind: model.KRaw, Raw: &model.Raw{Type: 46, Body: in.B1}, Data: model.Bytes{in.U8a}}
 		case "KeyExchange":
-			c.BUildKeyExchange(in.U16a, cp(in.B1))
+			// the builder's name carries a typo ("BUildKeyExchange"); look it up by name so that a rename to the obvious
+			// spelling does not stop the harness from compiling
+			mv := reflect.ValueOf(&c).MethodByName("BUildKeyExchange")
+			if !mv.IsValid() {
+				mv = reflect.ValueOf(&c).MethodByName("BuildKeyExchange")
+			}
+			if !mv.IsValid() {
+				return fmt.Errorf("HARNESS: no key exchange builder found")
+			}
+			mv.Call([]reflect.Value{reflect.ValueOf(in.U16a), reflect.ValueOf(cp(in.B1))})
 			want = &model.Payload{Kind: model.KKE, KE: &model.KE{Group: in.U16a, Data: in.B1}}
 			oversize, mayError = 8+len(in.B1) > 65535, len(in.B1) == 0
 		case "IDi":
